@@ -60,7 +60,8 @@ fn gen_seq_request_any(rng: &mut Rng, k: usize, allow_malformed: bool, small: bo
     if ctx {
         headers.push((catalog::CTX_HEADER.to_string(), format!("{token}ctx")));
     }
-    let bclass = if matches!(method, "POST" | "PUT" | "PATCH" | "DELETE") && rng.chance(2, 3) { rng.range(1, 7) } else { 0 };
+    // any method may announce a body with Content-Length; the reader has to consume it whatever the method
+    let bclass = if (matches!(method, "POST" | "PUT" | "PATCH" | "DELETE") && rng.chance(2, 3)) || (matches!(method, "GET" | "HEAD" | "OPTIONS") && rng.chance(1, 4)) { rng.range(1, 7) } else { 0 };
     let mut body: Vec<u8> = match bclass {
         0 => vec![],
         1 => token.clone().into_bytes(),
